@@ -129,6 +129,29 @@ pub fn build(family: &str, tier: Tier) -> Vec<Cfg> {
                     out.push(c);
                 }
             }
+            // the server's receive maximum shrinks between connections: interrupted publishes wait in the resubmit queue behind flow control
+            for rms in [vec![None, Some(1u16)], vec![Some(2), Some(1)]] {
+                if !thorough && rms[0].is_some() { continue; }
+                let mut c = Cfg::base("resolve", &format!("rm-by-conn{:?}", rms));
+                c.receive_maximum_by_conn = rms;
+                c.submits = vec![spec("pub1", publish("t", 1)), spec("pub2", publish("t", 2))];
+                c.max_submits = 3; c.max_conns = 2; c.budget = 2; c.max_depth = 28;
+                c.allow.close = true; c.allow.reorder = true;
+                c.session_answers = vec![true, false];
+                c.closure = true;
+                out.push(c);
+            }
+            // QoS 0 publishes with an ack timeout: the timeout can fire while the write is stalled, before the write completion
+            {
+                let mut c = Cfg::base("resolve", "qos0-with-timeout");
+                c.submits = vec![spec_t("pub0-500", publish("t", 0), 500), spec("pub0", publish("u", 0)), spec_t("pub1-500", publish("t", 1), 500)];
+                c.max_submits = 3; c.max_conns = 2; c.budget = 2; c.max_depth = 26;
+                c.allow.close = true; c.allow.tick_before = true; c.allow.idle_ticks = vec![300];
+                c.session_answers = vec![true];
+                c.clock = Clock::Late(vec![1, 700]);
+                c.closure = true;
+                out.push(c);
+            }
             // small buffer and hostile acks
             for cap in [5usize] {
                 let mut c = Cfg::base("resolve", &format!("cap{}-hostile", cap));
